@@ -169,6 +169,10 @@ def injections(world, ep, sa):
         for cut, lab in ((1, '1'), (icv, 'icv'), (len(data) // 2, 'half')):
             yield ('truncated:%s:-%s' % (kind, lab), data[:-cut])
         yield ('extended:%s:+1' % kind, data + b'\0')
+        # (the same octets behind a non-ESP marker, as they travel on port 4500: this daemon does no NAT traversal, the datagram
+        # is four octets too long in front; label suffix @4500 = it comes from that source port)
+        yield ('prefixed:%s:non-esp-marker' % kind, b'\0\0\0\0' + data)
+        yield ('prefixed:%s:non-esp-marker@4500' % kind, b'\0\0\0\0' + data)
         # the same plaintext protected with other keys
         try:
             first, inner = F.unprotect(data, keys_peer)
@@ -224,6 +228,8 @@ def check_one(world, name, sa_index, label, data):
     peer_addr = str(ep.controller.ike_sas[sa_index].peer_addr)
     if label.startswith('from-stranger:'):
         peer_addr = '10.9.9.9' if ':' not in peer_addr else '2001:db8:9::9'
+    if label.endswith('@4500'):
+        peer_addr = (peer_addr, 4500)
     before = snapshot(ep, world.clock)
     w = world.fork()
     w.step(('inject', name, data, peer_addr))
@@ -308,6 +314,8 @@ def continuous_injections(sc, history, names, cover, outcomes):
                     src = peer_addr
                     if label.startswith('from-stranger:'):
                         src = '10.9.9.9' if ':' not in peer_addr else '2001:db8:9::9'
+                    if label.endswith('@4500'):
+                        src = (peer_addr, 4500)
                     ep = w.endpoints[name]
                     before = snapshot(ep, w.clock)
                     hist_len = len(w.history)
